@@ -28,6 +28,7 @@ func TestC17(t *testing.T) {
 			p.PFault = 6
 			p.PEvidence, p.PAbsent = 2, 2
 			p.VaryGas = true
+			p.BlockGasBoundary = true
 			return p
 		},
 		compare: func(c *Case, a *AppState, b *Block, br *BlockResult) {
